@@ -120,10 +120,25 @@ pub fn model_start_of_day(z: &Zone, day: i64) -> Exp {
         return Exp::Range;
     }
     let Some(first) = z.ref_start_of_day(day) else { return Exp::Undecided("local day does not exist") };
-    let midnight = z.ref_instants_of(day as i128 * NS_PER_DAY);
+    let midnight_local = day as i128 * NS_PER_DAY;
+    let midnight = z.ref_instants_of(midnight_local);
     if let Some(m) = midnight.first() {
         if *m != first {
             return Exp::Undecided("local day entered before its own midnight");
+        }
+    } else {
+        // midnight is skipped: the day starts at the (first) transition whose gap contains it - unless that gap skips the
+        // whole day and the day is only entered later by a backward transition (then "first instant of the day" and
+        // "first time after the transition" part ways; not judged)
+        for (i, &(t, after)) in z.trans.iter().enumerate() {
+            let before = if i == 0 { z.initial } else { z.trans[i - 1].1 };
+            let tt = t as i128 * SEC;
+            if after > before && midnight_local >= tt + before as i128 * SEC && midnight_local < tt + after as i128 * SEC {
+                if (tt + after as i128 * SEC).div_euclid(NS_PER_DAY) != day as i128 {
+                    return Exp::Undecided("local day skipped by the gap that skips its midnight");
+                }
+                break;
+            }
         }
     }
     in_range(first)
@@ -213,17 +228,16 @@ pub fn run(rep: &mut Report) {
             rep.harness_error(format!("zone name {} not accepted", z.name));
             continue;
         };
-        // total offset change within two days either side of an instant: bounds how much longer than 24 h a local day can be there
-        let jump_budget = |t: i128| -> i128 {
-            let mut sum = 0i64;
-            let mut prev = z.initial;
-            for &(tt, o) in &z.trans {
-                if ((tt as i128 * SEC) - t).abs() <= 2 * NS_PER_DAY {
-                    sum += (o - prev).abs();
-                }
-                prev = o;
+        // A sound bound for "the time part is shorter than the local day": the intermediate date-time is the receiver's
+        // time of day on a date at most three wall-clock days before the other instant's reading, and instants differ
+        // from wall-clock distances by at most the spread of the zone's offsets.
+        let time_part_bound: i128 = {
+            let (mut lo, mut hi) = (z.initial, z.initial);
+            for &(_, o) in &z.trans {
+                lo = lo.min(o);
+                hi = hi.max(o);
             }
-            sum as i128 * SEC
+            3 * NS_PER_DAY + (hi - lo) as i128 * SEC
         };
         let pts = probe_instants(z, &mut rng, 2, per_zone / 3, per_zone / 6);
         for t1 in pts {
@@ -344,7 +358,7 @@ pub fn run(rep: &mut Report) {
                                         _ => rep.violation("C14.diff_date", nm, &shape, case(), g.show_with(|d| show10(&dur_fields(d))), show10(e)),
                                     }
                                 }
-                                if td.abs() >= NS_PER_DAY + jump_budget(t2) {
+                                if td.abs() >= time_part_bound {
                                     rep.harness_error(format!("model time part {td} not shorter than a local day ({} {t1} {t2})", z.name));
                                 }
                             }
@@ -362,7 +376,7 @@ pub fn run(rep: &mut Report) {
                             tf[1] = 0.0;
                             tf[2] = 0.0;
                             tf[3] = 0.0;
-                            if dur::time_total(&tf).abs() >= NS_PER_DAY + jump_budget(t2) {
+                            if dur::time_total(&tf).abs() >= time_part_bound {
                                 rep.violation("C14.law_time_part", "ZonedDateTime::until", &shape, case(), show10(&fv), "time part shorter than the local day".into());
                             }
                             let back = call(|| zdt1.add_with_provider(d, None, &prov)).map(|r| r.epoch_nanoseconds().as_i128());
@@ -391,7 +405,10 @@ pub fn run(rep: &mut Report) {
                 let day = l1.div_euclid(NS_PER_DAY) as i64;
                 let s0 = model_start_of_day(z, day);
                 let s1 = model_start_of_day(z, day + 1);
-                let case = || json!({"zone": z.name, "instant": t1.to_string(), "wall": crate::mon::c13::model_fmt_local(l1)});
+                let case = || {
+                    let near: Vec<String> = z.trans.iter().enumerate().filter(|(_, (tt, _))| ((*tt as i128 * SEC) - t1).abs() <= 3 * NS_PER_DAY).map(|(i, (tt, o))| format!("{tt}:{}->{o}", if i == 0 { z.initial } else { z.trans[i - 1].1 })).collect();
+                    json!({"zone": z.name, "instant": t1.to_string(), "wall": crate::mon::c13::model_fmt_local(l1), "transitions_within_3_days": near})
+                };
                 let day_len = match (&s0, &s1) {
                     (Exp::Ok(a), Exp::Ok(b)) => Some(b - a),
                     _ => None,
